@@ -475,8 +475,23 @@ class World:
 
         falsy = bool(spec.get("falsy_service"))
 
+        base = object
+        if spec.get("svc_base"):
+            # derived from a service class of another flavour: the subclass's own decoration counts
+            bfl = spec["svc_base"]
+
+            @service(flavour=FLAV[bfl])
+            class BaseSvc:
+                if bfl == "thr":
+                    def run(self):
+                        log("start", pid, fl="base-" + bfl, args_ok=True)
+                else:
+                    async def run(self):
+                        log("start", pid, fl="base-" + bfl, args_ok=True)
+            base = BaseSvc
+
         @service(flavour=FLAV[fl])
-        class Svc:
+        class Svc(base):
             def __init__(self):
                 pass
 
